@@ -79,10 +79,8 @@ def check_rewrite(ctx, case, src=None, base_snap=None):
         else:
             base_snap, base_warn = base_snap
         plan = case["plan"]
-        res = ctx.guard(("C06", "harness_rewrite"), case, layout.rewrite, src, tmp, plan)
-        if res is None:
-            return
-        path, stats = res
+        # the rewrite is harness code only: a failure here is a harness error (exit 2), never a violation
+        path, stats = layout.rewrite(src, tmp, plan)
         ctx.ev()
         opened = ctx.guard(("C06", "open_rewritten", *sorted(k for k in plan if k != "salt")[:3]), case, open_quiet, path)
         if opened is None:
